@@ -81,6 +81,10 @@ def _encode_case(args):
     return res
 
 
+def _encode_many(cases):
+    return [_encode_case(c) for c in cases]
+
+
 def first_bad_unit(kinds, unit_vals, got):
     """Which unit (kind, position class) is the first whose denoted characters are not where they should be."""
     pos = 0
@@ -191,7 +195,10 @@ def run(ctx):
     enc = pmap(_encode_case, enc_in, chunksize=128)
     seq = [('PARTS', p) for p in encparts]
     enc_in += seq + list(reversed(seq))
-    enc += [_encode_case(x) for x in seq] + [_encode_case(x) for x in reversed(seq)]
+    import multiprocessing
+    with multiprocessing.get_context('spawn').Pool(2, maxtasksperchild=1) as pool:
+        fw, bw = pool.map(_encode_many, [seq, list(reversed(seq))], chunksize=1)
+    enc += fw + bw
     traces, meta = [], []
     for (kind, payload), e in zip(enc_in, enc):
         if 'exc' in e:
